@@ -97,8 +97,13 @@ pub fn pred(i: usize) -> String {
 pub fn graph(i: usize) -> String {
     format!("{}g{}", NS, i)
 }
+/// The i-th word (plain literal) of the vocabulary: also one with a space and one outside ASCII.
 pub fn word(i: usize) -> String {
-    format!("w{}", i)
+    match i {
+        1 => "x y".to_string(),
+        3 => "\u{e9}\u{20ac}".to_string(),
+        _ => format!("w{}", i),
+    }
 }
 
 pub fn is_iri(t: &str) -> bool {
